@@ -81,6 +81,10 @@ Act_C12_WorkKept == [][IsResumeStep => \A s \in StepsOf :
                           /\ bs'.steps[s].coll = bs.steps[s].coll
                           /\ WaiterIds(bs', s) = WaiterIds(bs, s)
                           /\ (bs'.steps[s].queue # <<>> => Len(bs'.steps[s].ip) = R!Nw(s))]_vars
+(* ... and the resume starts nothing twice: a step input that is queued / running again is not ALSO pinged by the        *)
+(* rehydration ticks (an answered waiter's replay is already part of the work)                                            *)
+Act_C12_NoDoubleStart == [][IsResumeStep => \A i \in 1..Len(buf') :
+                          (buf'[i].k = "add" /\ buf'[i].target \in StepsOf) => buf'[i].uid \notin DOMAIN WorkOf(bs', buf'[i].target)]_vars
 (* ... and the retry counts of work that was QUEUED travel with it (work that was RUNNING restarts at 0: recorded finding) *)
 Act_C12_QueuedAttemptsKept == [][IsResumeStep => \A s \in StepsOf : \A i \in 1..Len(bs.steps[s].queue) :
                           LET a == bs.steps[s].queue[i] IN
